@@ -335,7 +335,23 @@ def h5_trees(draw):
 @st.composite
 def sparse_util_cases(draw):
     """in-memory pointer arithmetic of utils/sparse_utils.py"""
-    op = draw(st.sampled_from(['merge_csr', 'load_csr_chunk', 'load_csr', 'load_csc']))
+    op = draw(st.sampled_from(['merge_csr', 'load_csr_chunk', 'load_csr', 'load_csc', 'stack_pieces', 'stack_pieces']))
+    if op == 'stack_pieces':
+        # amalgamate_csr_to_x called directly on piece files whose index arrays are stored in any integer type
+        # wide enough for the piece itself; the stacked matrix may hold more entries than the narrow type can count
+        # pieces of 1-8 rows each (so that a piece alone fits the narrow type while the running total need not)
+        nc = draw(st.sampled_from([1, 3, 8, 16, 30, 30, 40]))
+        rows = draw(st.lists(st.integers(1, 8), min_size=1, max_size=7))
+        nr = sum(rows)
+        cuts = [sum(rows[:i]) for i in range(1, len(rows))]
+        narrow = draw(st.sampled_from(['uint8', 'int8', 'uint16', 'int16', 'mixed', 'mixed']))
+        return {'kind': 'S', 'op': op, 'shape': [nr, nc], 'seed': draw(st.integers(0, 10**6)),
+                'density': draw(st.sampled_from([0.0, 0.05, 0.3, 0.6, 0.9, 1.0, 1.0])),
+                'dtype': draw(st.sampled_from(VALUE_DTYPES)), 'cuts': cuts,
+                'idx_dtypes': [narrow if narrow != 'mixed' else
+                               draw(st.sampled_from(['uint8', 'int8', 'uint16', 'int16', 'int32', 'int64', 'uint32']))
+                               for _ in rows],
+                'compression': draw(st.booleans())}
     x = draw(small_dense(max_rows=8, max_cols=7))
     nr, nc = len(x), len(x[0])
     spec = {'kind': 'S', 'op': op, 'x': x, 'dtype': draw(st.sampled_from(VALUE_DTYPES))}
